@@ -5,14 +5,17 @@ import sys, os, difflib
 HERE = os.path.dirname(os.path.dirname(os.path.abspath(__file__)))
 prop, name, rest = sys.argv[1], sys.argv[2], sys.argv[3:]
 out = []
+srcs, dsts = {}, {}
 for i in range(0, len(rest), 3):
     f, old, new = rest[i:i+3]
-    old = old.encode().decode('unicode_escape'); new = new.encode().decode('unicode_escape')
-    src = open(os.path.join("/repo", f)).read()
-    if old not in src:
+    old = old.replace('\\n', '\n').replace('\\t', '\t'); new = new.replace('\\n', '\n').replace('\\t', '\t')
+    srcs.setdefault(f, open(os.path.join("/repo", f)).read())
+    cur = dsts.get(f, srcs[f])
+    if old not in cur:
         sys.exit(f"{f}: pattern not found: {old!r}")
-    dst = src.replace(old, new, 1)
-    out += list(difflib.unified_diff(src.splitlines(True), dst.splitlines(True), "a/" + f, "b/" + f))
+    dsts[f] = cur.replace(old, new, 1)
+for f in srcs:
+    out += list(difflib.unified_diff(srcs[f].splitlines(True), dsts[f].splitlines(True), "a/" + f, "b/" + f))
 d = os.path.join(HERE, "mutants", prop)
 os.makedirs(d, exist_ok=True)
 open(os.path.join(d, name + ".diff"), "w").write("".join(out))
